@@ -18,24 +18,25 @@ type RunResult struct {
 	Run      int        `json:"run"`
 	Viol     *Violation `json:"violation,omitempty"`
 	// Extra: further, independent rule failures of the same run (each judged on its own against the known findings)
-	Extra      []*Violation   `json:"extra_violations,omitempty"`
-	Stuck      string         `json:"stuck,omitempty"`
-	Steps      int            `json:"steps"`
-	Switches   int            `json:"switches"`
-	SimTimeNs  int64          `json:"sim_time_ns"`
-	TraceHash  uint64         `json:"trace_hash"`
-	ILHash     uint64         `json:"il_hash"`
-	Nontrivial bool           `json:"nontrivial"`
-	Probes     map[string]int `json:"probes,omitempty"`
-	Sites      map[string]int `json:"sites,omitempty"`
-	Pairs      int            `json:"pairs"`
-	Trace      []string       `json:"trace,omitempty"`
-	Tape       []uint32       `json:"tape,omitempty"`
-	Summary    string         `json:"summary,omitempty"`
-	Leaked     []string       `json:"leaked,omitempty"`
-	PoolViol   int            `json:"pool_viol"`
-	KnownHit   string         `json:"known_hit,omitempty"`
-	Sample     *Sample        `json:"sample,omitempty"`
+	Extra      []*Violation          `json:"extra_violations,omitempty"`
+	Stuck      string                `json:"stuck,omitempty"`
+	Steps      int                   `json:"steps"`
+	Switches   int                   `json:"switches"`
+	SimTimeNs  int64                 `json:"sim_time_ns"`
+	TraceHash  uint64                `json:"trace_hash"`
+	ILHash     uint64                `json:"il_hash"`
+	Nontrivial bool                  `json:"nontrivial"`
+	Probes     map[string]int        `json:"probes,omitempty"`
+	Sites      map[string]int        `json:"sites,omitempty"`
+	Pairs      int                   `json:"pairs"`
+	Trace      []string              `json:"trace,omitempty"`
+	Tape       []uint32              `json:"tape,omitempty"`
+	Summary    string                `json:"summary,omitempty"`
+	Leaked     []string              `json:"leaked,omitempty"`
+	PoolViol   int                   `json:"pool_viol"`
+	PoolViols  []simrt.PoolViolation `json:"-"`
+	KnownHit   string                `json:"known_hit,omitempty"`
+	Sample     *Sample               `json:"sample,omitempty"`
 }
 
 // Sample is one run written out in full for the evidence file.
@@ -49,31 +50,35 @@ type Sample struct {
 // InBubble runs f inside a fresh synctest bubble and survives the end-of-bubble deadlock panic
 // that synctest raises when f leaves blocked goroutines behind. It reports whether that happened.
 func InBubble(t *testing.T, f func()) (leaked bool, crashed string) {
-	defer func() {
-		if r := recover(); r != nil {
-			msg := fmt.Sprint(r)
-			if strings.Contains(msg, "deadlock: main bubble goroutine has exited") {
-				leaked = true
-				return
-			}
-			buf := make([]byte, 16384)
-			buf = buf[:runtime.Stack(buf, false)]
-			crashed = msg + "\n" + string(buf)
-		}
-	}()
-	synctest.Test(t, func(t *testing.T) {
-		// a panic of the harness itself on the scheduler goroutine must not take the worker down
+	// every bubble is its own subtest: a race report (race build) or any other failure the testing
+	// package attributes to it fails that subtest only and the worker carries on with the next run
+	t.Run("run", func(st *testing.T) {
 		defer func() {
 			if r := recover(); r != nil {
+				msg := fmt.Sprint(r)
+				if strings.Contains(msg, "deadlock: main bubble goroutine has exited") {
+					leaked = true
+					return
+				}
 				buf := make([]byte, 16384)
 				buf = buf[:runtime.Stack(buf, false)]
-				crashed = fmt.Sprint(r) + "\n" + string(buf)
-				if cur := simrtCurrent(); cur != nil {
-					cur.End()
-				}
+				crashed = msg + "\n" + string(buf)
 			}
 		}()
-		f()
+		synctest.Test(st, func(*testing.T) {
+			// a panic of the harness itself on the scheduler goroutine must not take the worker down
+			defer func() {
+				if r := recover(); r != nil {
+					buf := make([]byte, 16384)
+					buf = buf[:runtime.Stack(buf, false)]
+					crashed = fmt.Sprint(r) + "\n" + string(buf)
+					if cur := simrtCurrent(); cur != nil {
+						cur.End()
+					}
+				}
+			}()
+			f()
+		})
 	})
 	return
 }
@@ -100,6 +105,9 @@ func (s *Sim) finish(r *RunResult) {
 		r.Stuck = fmt.Sprintf("step budget of %d exhausted", s.MaxSteps)
 	}
 	r.Trace = s.Trace
+	s.R.Pools.CheckFree()
+	r.PoolViols = s.R.Pools.Viol
+	r.PoolViol = len(r.PoolViols)
 	if r.Viol != nil || r.Stuck != "" {
 		// where is everybody? (for the human reading the replay file)
 		for _, n := range s.Alive(false) {
@@ -107,6 +115,7 @@ func (s *Sim) finish(r *RunResult) {
 		}
 	}
 	s.R.End()
+	simrt.Unquiet()
 }
 
 func simrtCurrent() *simrt.Run { return simrt.Current() }
